@@ -14,42 +14,10 @@
 -/
 import FastPasta.Props.C03
 import FastPasta.Model.Cli
+import FastPasta.Proofs.Link
 namespace FastPasta
 namespace C18
 open C03
-
-theorem linkRun_append (cfg : CheckCfg) (ps qs : List Packet) : ∀ (s : LinkSt),
-    linkRun cfg s (ps ++ qs) =
-      match linkRun cfg s ps with
-      | .error e => .error e
-      | .ok (s1, m1) =>
-        match linkRun cfg s1 qs with
-        | .error e => .error e
-        | .ok (s2, m2) => .ok (s2, m1 ++ m2) := by
-  induction ps with
-  | nil =>
-    intro s
-    simp only [List.nil_append, linkRun]
-    cases linkRun cfg s qs with
-    | error e => rfl
-    | ok r => obtain ⟨a, b⟩ := r; simp
-  | cons p ps ih =>
-    intro s
-    simp only [List.cons_append, linkRun]
-    cases hstep : linkStep cfg s p with
-    | error e => rfl
-    | ok r =>
-      obtain ⟨s1, m1⟩ := r
-      simp only
-      rw [ih s1]
-      cases linkRun cfg s1 ps with
-      | error e => rfl
-      | ok r2 =>
-        obtain ⟨s2, m2⟩ := r2
-        simp only
-        cases linkRun cfg s2 qs with
-        | error e => rfl
-        | ok r3 => obtain ⟨s3, m3⟩ := r3; simp [List.append_assoc]
 
 /-- the findings of one link for a prefix of its packets are a prefix of its findings for more
     packets (findings are emitted while a packet is processed and never retracted) -/
